@@ -308,3 +308,58 @@ pub fn mark_large(top: &mut Vec<BoxT>, seed: u64, one_in: u64) -> u64 {
     }
     marked
 }
+
+/// The same for the descendants of one box (the box itself is left alone): used on `moof`
+/// boxes, whose children (mfhd, traf, tfhd, tfdt, trun) may use the 64-bit header form as well.
+pub fn mark_large_in(b: &mut BoxT, seed: u64, one_in: u64) -> u64 {
+    fn rec(b: &mut BoxT, seed: u64, one_in: u64, k: &mut u64, marked: &mut u64) {
+        for p in b.parts.iter_mut() {
+            if let Part::Child(c) = p {
+                *k += 1;
+                if crate::prng::hash64(&[seed.to_le_bytes(), k.to_le_bytes()].concat()) % one_in == 0 {
+                    c.large = true;
+                    c.to_end = false;
+                    *marked += 1;
+                }
+                rec(c, seed, one_in, k, marked);
+            }
+        }
+    }
+    let (mut k, mut marked) = (0u64, 0u64);
+    rec(b, seed, one_in, &mut k, &mut marked);
+    marked
+}
+
+/// Insert 1-3 unknown boxes (free / skip / wide / uuid / a made-up type; 32- or 64-bit header;
+/// 0-40 payload bytes) at pseudo-random child slots of iterating containers or at top level.
+pub fn insert_unknown(top: &mut Vec<BoxT>, seed: u64) -> u64 {
+    let mut rng = Rng::new(seed);
+    let singles: Vec<Xf> = enumerate(top, &mut rng).into_iter().filter(|x| matches!(x, Xf::InsertTop { .. } | Xf::InsertChild { .. })).collect();
+    if singles.is_empty() {
+        return 0;
+    }
+    let n = 1 + rng.usize_below(3);
+    let mut done = 0;
+    for _ in 0..n {
+        let mut x = singles[rng.usize_below(singles.len())].clone();
+        let t = *rng.pick(&[*b"uuid", *b"free", *b"skip", *b"wide", *b"zzzz", *b"uuid"]);
+        let l = *rng.pick(&[0usize, 1, 15, 16, 17, 40]);
+        match &mut x {
+            Xf::InsertTop { pos, typ, len, .. } => {
+                // never in front of ftyp
+                *pos = (*pos).max(1);
+                *typ = t;
+                *len = l;
+            }
+            Xf::InsertChild { typ, len, .. } => {
+                *typ = t;
+                *len = l;
+            }
+            _ => {}
+        }
+        if apply(top, &x) {
+            done += 1;
+        }
+    }
+    done
+}
